@@ -372,6 +372,10 @@ impl<VM: VMBinding> MarkCompactSpace<VM> {
         };
         let mut to_end = to_cursor + to_size;
         for (from_start, size) in self.pr.iterate_allocated_regions() {
+            if size == 0 {
+                // Nothing has been allocated in this space.
+                continue;
+            }
             let from_end = from_start + size;
             // linear scan the contiguous region
             for obj in self
@@ -412,8 +416,16 @@ impl<VM: VMBinding> MarkCompactSpace<VM> {
     }
 
     pub fn compact(&self) {
-        let mut to = Address::ZERO;
+        // If no object survives, the space is free from the start of its first region.
+        let mut to = self
+            .pr
+            .iterate_allocated_regions()
+            .next()
+            .map_or(Address::ZERO, |(start, _)| start);
         for (from_start, size) in self.pr.iterate_allocated_regions() {
+            if size == 0 {
+                continue;
+            }
             let from_end = from_start + size;
             for obj in self.linear_scan_objects(from_start..from_end) {
                 let copied_size = VM::VMObjectModel::get_size_when_copied(obj);
